@@ -11,6 +11,10 @@ T_PATHS = 'bounded-exhaustive exploration of the row transition system (all row 
 T_HIST = 'explicit-state BFS over call histories on live objects with reflection snapshots'
 
 CHECKS = {
+    'C19': ("Kern-only documents (every row sequence to length 4/3, thorough 5/4, over data, barline, null, clef, split, join; <=1/2 deviations of a backbone) cut at EVERY subset of their "
+            "barline rows (<=5 cuts) with both separators; concat's document must equal the import of the joined text (three views), one pair per fragment, pairs consecutive, last 'to' == "
+            "measure count, and exporting pair i must give exactly the data lines of fragment i.",
+            'Fragment data lines are compared in normal form taken from kernpy\'s own full export (C03).', T_PATHS + ' x exhaustive cut sets', 'DESIGN.md §3 C19'),
     'C07': ("Every row sequence up to length 5/4/4/3 (thorough 6/5/5/4) over data, barline, null interpretation, clef row, null data, split, join for 1-3 kern spines (and kern+text exported with "
             "spine_types=['**kern']) plus all <=2 (3) deviations of a backbone score; for each document EVERY range 1<=a<=b<=M, (a,None), (None,b) and eight out-of-range shapes. Oracle: the "
             "full export tiled by its barline rows - data lines of the range byte-identical and in order, opening/closing barline, single-measure exports partition the data lines, "
